@@ -63,6 +63,10 @@ func (g *sgen) schema(d int, allowRef bool) O {
 		return O{"type": "array", "items": g.schema(d+1, true)}
 	case 5:
 		s := O{"type": "array", "items": A{g.schema(d+1, true)}}
+		if g.Pct(25) {
+			delete(s, "type") // "type" is optional: positional items make a tuple all the same
+			g.Label("tuple:typeless")
+		}
 		if g.Pct(40) {
 			if g.Bool() {
 				s["additionalItems"] = g.schema(d+1, true)
